@@ -178,7 +178,9 @@ def check(run, views, tier):
             kinds = set()
             for p in errs:
                 for c in p.conds:
-                    if c[0] == "if" and c[2] is True and c[1][0] == "bin" and c[1][1] == "Eq" and c[1][3][0] == "cast" and c[1][3][2][0] == "ctor":
-                        kinds.add(c[1][3][2][1].split("::")[-1])
+                    if c[0] == "if" and c[2] is True and c[1][0] == "bin" and c[1][1] == "Eq":
+                        for side in (c[1][2], c[1][3]):
+                            if side[0] == "cast" and side[2][0] == "ctor":
+                                kinds.add(side[2][1].split("::")[-1])
             run.ob("R-BRACKET", "non-empty begin/end collection markers are rejected with InvalidCollection", {"BegCollection", "EndCollection"} <= kinds, str(kinds), site(vb),
                    key="R-BRACKET|parser|marker-check")
